@@ -12,7 +12,7 @@ Extraction "model.ml"
   Lexer.lex_all Lexer.lex_init Lexer.scan_begin Lexer.scan_end Lexer.yylex Lexer.lex_fuel Lexer.clear_echo
   Files.tilde_expand Files.cfg_searchpath Files.fs_set Files.fs_lookup Files.resolve_spec
   Store.cfg_getopt Store.getopt_secidx Store.get_opt Store.get_sec
-  Parser.cfg_init Parser.parse_buf Parser.parse_file Parser.parse_fp Parser.parse_fp_unreadable Parser.cfg_free Parser.set_path
+  Parser.cfg_init Parser.parse_buf Parser.parse_file Parser.parse_fp Parser.parse_fp_unreadable Parser.parse_fp_partial Parser.cfg_free Parser.set_path
   Api.cfg_setnint Api.cfg_setnfloat Api.cfg_setnbool Api.cfg_setnstr Api.cfg_setlist Api.cfg_addlist
   Api.cfg_setmulti Api.cfg_setopt_cmd Api.cfg_setcomment Api.cfg_addtsec Api.cfg_rmnsec Api.cfg_rmsec Api.cfg_rmtsec
   Api.cfg_set_validate_func Api.cfg_set_validate_func2 Api.cfg_set_print_func Api.cfg_getsec
